@@ -22,7 +22,7 @@
     next to each stands the exact characterisation that does hold. *)
 From Coq Require Import List NArith Bool Arith Strings.String.
 From Atlas Require Import Base.Bytes Dir.DirModel Dir.DirProofs Dir.DirDetect Dir.DirEdits Dir.DirGlob
-  Dir.DirRefuted Dir.DirWriters Dir.DirToyHash.
+  Dir.DirRefuted Dir.DirWriters Dir.DirExact Dir.DirToyHash.
 Import ListNotations.
 
 Section C06.
@@ -119,6 +119,33 @@ Theorem C06_single_edit_detected :
   is_checksum_error (validate HS d' (Some (marshal HS (newhash HS d)))) \/
   collision HS (hash_inputs HS d ++ hash_inputs HS d').
 Proof. exact (single_edit_detected HS HS_shape). Qed.
+
+(** Exact characterisation for an original directory without sum-ignored
+    files against ANYTHING Dir.Files() can return ([all_sql]: names end in
+    ".sql"; [sorted_strict]: strictly increasing names; the tampered files
+    MAY carry the sum-ignore directive, their names need not be wf): the only
+    directories that validate are [d ++ t] with every file of [t] sum-ignored
+    (the known finding; converse: [C06_trailing_ignored_undetected]) -- or a
+    collision, or the original quotes one of its own stream hashes. *)
+Theorem C06_detect_plain_exact :
+  forall d d' : list file,
+  names_wf d = true -> no_ignored d = true ->
+  all_sql d' = true -> sorted_strict d' = true ->
+  validate HS d' (Some (marshal HS (newhash HS d))) = VOk ->
+  (exists t, d' = d ++ t /\ all_ignored t = true) \/
+  collision HS (hash_inputs HS d ++ hash_inputs HS d') \/
+  embedded_hash HS d.
+Proof. exact (detect_plain_exact_lemma HS HS_shape). Qed.
+
+Theorem C06_detect_plain_exact_checksum_error :
+  forall d d' : list file,
+  names_ok d = true -> NoDup (map fst d) -> names_wf d = true -> no_ignored d = true ->
+  all_sql d' = true -> sorted_strict d' = true ->
+  (forall t, all_ignored t = true -> d' <> d ++ t) ->
+  is_checksum_error (validate HS d' (Some (marshal HS (newhash HS d)))) \/
+  collision HS (hash_inputs HS d ++ hash_inputs HS d') \/
+  embedded_hash HS d.
+Proof. exact (detect_plain_exact_error HS HS_shape). Qed.
 
 (** * 5. With sum-ignored files: what exactly is pinned down *)
 
@@ -250,6 +277,8 @@ Print Assumptions C06_detect_glob.
 Print Assumptions C06_detect_plain.
 Print Assumptions C06_detect_plain_checksum_error.
 Print Assumptions C06_single_edit_detected.
+Print Assumptions C06_detect_plain_exact.
+Print Assumptions C06_detect_plain_exact_checksum_error.
 Print Assumptions C06_detect_wf.
 Print Assumptions C06_full_refuted.
 Print Assumptions C06_trailing_ignored_undetected.
@@ -306,6 +335,16 @@ Example ex_plain :
     = VChecksum 3 2 (48 + 56) (bs "3_c.sql") Edited /\
   validate toy_hs (replace_at 0 (bs "0_a.sql", bs "CREATE TABLE a;" ++ [NL]) ex_p) (ex_sum ex_p)
     = VChecksum 2 2 48 (bs "1_a.sql") Removed.
+Proof. vm_compute. repeat split; reflexivity. Qed.
+
+(* 3': tampered directory with a non-wf name AND a new sum-ignored file in front: refused;
+   only trailing sum-ignored files pass *)
+Example ex_plain_exact :
+  let d1 := [(bs "0_x.sql", ign_header); (bs "1_a.sql", bs "CREATE TABLE a;" ++ [NL]); (bs "3_c.sql", bs "Y;" ++ [NL])] in
+  let d2 := ex_p ++ [(bs "4_x.sql.sql", ign_header)] in
+  all_sql d1 = true /\ sorted_strict d1 = true /\
+  validate toy_hs d1 (ex_sum ex_p) = VChecksum 2 2 48 (bs "1_a.sql") Edited /\
+  all_sql d2 = true /\ sorted_strict d2 = true /\ validate toy_hs d2 (ex_sum ex_p) = VOk.
 Proof. vm_compute. repeat split; reflexivity. Qed.
 
 (* 4: an edited hash in a sum line is refused *)
